@@ -277,6 +277,11 @@ class CallMixin:
         for k, v in env.items():
             if k in c.types:
                 kind = self.reg.kind(c.types[k])
+                if isinstance(v, SVal) and isinstance(v.kind, KOpt) and not isinstance(kind, KOpt):
+                    # passing an optional where a value is expected: must not be None here
+                    self.oblige(st, '%s#call[%s].arg[%s].not_none' % (self.current_qual, c.qual.split(':')[-1], k),
+                                z3.Not(v.t[0]))
+                    v = SVal(v.kind.inner, v.t[1:])
                 try:
                     v = self.coerce_to(st, v, kind)
                 except CheckerError as ex:
@@ -292,7 +297,7 @@ class CallMixin:
         short = c.qual.split(':')[-1]
         env = self.contract_env(st, c, env)
         pre_heap = dict(st.heap)
-        sf = self.spec_frame(fv.module, c.qual, fv.cls, env)
+        sf = self.spec_frame(fv.module, c.qual, fv.cls, env, old=(pre_heap, env))
         saved = st.env
         st.env = {}
         try:
